@@ -48,6 +48,20 @@ def desugar(loc, relfile, fn_paths, rules, _pass=0):
                     rewrites.append((a, b, new))
                     records.append({"fn": fp, "rule": "D10 parameter type fn(&T) -> usize  =>  MappingFn<T> (stub type)",
                                     "original": src[a:b], "rewritten": new})
+            if "D28" in rules:
+                # an iterator of references that the function collects at once is taken as the vector of those references
+                for m in re.finditer(r"impl Iterator<Item = (&'[a-z]+ [A-Za-z_0-9<>]+)> \+ Clone", src[it["start"]:it["end"]]):
+                    a, b = it["start"] + m.start(), it["start"] + m.end()
+                    new = "Vec<" + m.group(1) + ">"
+                    rewrites.append((a, b, new))
+                    records.append({"fn": fp, "rule": "D28 parameter type impl Iterator<Item = &'a T> + Clone  =>  Vec<&'a T>",
+                                    "original": src[a:b], "rewritten": new})
+                for m in re.finditer(r"([a-z_]+)\.collect::<Vec<_>>\(\)", src[it["start"]:it["end"]]):
+                    a, b = it["start"] + m.start(), it["start"] + m.end()
+                    new = m.group(1)
+                    rewrites.append((a, b, new))
+                    records.append({"fn": fp, "rule": "D28 X.collect::<Vec<_>>() [X the iterator parameter]  =>  X",
+                                    "original": src[a:b], "rewritten": new})
             if "D25" in rules:
                 # a reason buffer `impl Extend<T> + AsRef<[T]>` is used as a sequence that is appended to and read back:
                 # the anonymous type becomes the stub `PvBuf<T>`, `.extend(std::iter::once(E))` becomes `.pv_push(E)`
@@ -84,6 +98,28 @@ def desugar(loc, relfile, fn_paths, rules, _pass=0):
                     new = f"{recv}.pv_splice({lo}, {hi}, {arg});"
                     rewrites.append((v["call"][0], v["call"][1], new))
                     records.append({"fn": fp, "rule": "D18 let _ = V.splice(LO..HI, ARG);  =>  V.pv_splice(LO, HI, ARG);   (spec/std_vec_splice.rs: the documented effect of Vec::splice whose iterator is dropped at once; panics unless LO <= HI <= len)",
+                                    "original": src[v["call"][0]:v["call"][1]], "rewritten": new})
+                    continue
+                if v["rule"] == "D30":
+                    pat = src[v["pat"][0]:v["pat"][1]]
+                    ex = src[v["expr"][0]:v["expr"][1]]
+                    # keep a loop label, if any, on the while loop
+                    new = (f"let pv_seq_{pat} = {ex}; let mut pv_n_{pat}: usize = 0; while pv_n_{pat} < pv_seq_{pat}.len() {{ let {pat} = pv_seq_{pat}[pv_n_{pat}]; pv_n_{pat} += 1;")
+                    head = src[v["call"][0]:v["call"][1]]
+                    if not head.lstrip().startswith("for"):
+                        raise Undecided(f"{fp}: D30 candidate with a loop label is not supported")
+                    rewrites.append((v["call"][0], v["call"][1], new))
+                    records.append({"fn": fp, "rule": "D30 for p in E { B }  =>  let s = E; let mut n = 0; while n < s.len() { let p = s[n]; n += 1; B }   (E is evaluated once to an indexable sequence of copyable items; Verus `for` has no `continue`)",
+                                    "original": src[v["call"][0]:v["call"][1]], "rewritten": new})
+                    continue
+                if v["rule"] == "D31":
+                    recv = src[v["recv"][0]:v["recv"][1]]
+                    lo = src[v["lo"][0]:v["lo"][1]]
+                    hi = src[v["hi"][0]:v["hi"][1]]
+                    fn_ = "pv_slice_incl" if v.get("closed") else "pv_slice"
+                    new = f"{fn_}(&{recv}, {lo}, {hi})"
+                    rewrites.append((v["call"][0], v["call"][1], new))
+                    records.append({"fn": fp, "rule": "D31 &V[A..B] / &V[A..=B]  =>  pv_slice(&V, A, B) / pv_slice_incl(&V, A, B)   (stubs with the sub-sequence as result and the std bounds check as precondition)",
                                     "original": src[v["call"][0]:v["call"][1]], "rewritten": new})
                     continue
                 if v["rule"] == "D26":
